@@ -650,7 +650,13 @@ fn trace_line_inner(c: &Case) -> String {
     for r in &recs {
         match r {
             Rec::Target { target: t, pre } => target = format!("{}@{}", t, snap(pre)),
-            Rec::Valid { ops } => pending_valid = Some(if ops.is_empty() { "e".to_string() } else { hex(ops) }),
+            Rec::Valid { ops, left } => {
+                pending_valid = Some(format!(
+                    "{}@{}",
+                    if ops.is_empty() { "e".to_string() } else { hex(ops) },
+                    left.map(|x| x.to_string()).unwrap_or_else(|| "-".to_string())
+                ))
+            }
             Rec::Op { op, arg, pre } => {
                 valids.push(pending_valid.take().unwrap_or_else(|| "-".to_string()));
                 if !steps.is_empty() {
